@@ -1,6 +1,6 @@
 (* C11 — Aggregates equal their definitions over exactly the selected items.
    Property theorems only; proofs are in Proofs/AggregatesProofs.v (flattening: Proofs/ValueProofs.v). *)
-From HX Require Import Model.Value Model.Operators Model.Lookup Model.Aggregates Proofs.ValueProofs Proofs.AggregatesProofs Proofs.MedianOrder.
+From HX Require Import Model.Value Model.Operators Model.Lookup Model.Aggregates Proofs.ValueProofs Proofs.AggregatesProofs Proofs.MedianOrder Proofs.AvedevProofs.
 From Coq Require Import QArith Permutation Sorted.
 Open Scope Z_scope.
 
@@ -124,6 +124,13 @@ Theorem C11_HARMEAN_definition : forall args, numeric_args args -> (2 <= length 
   Forall (fun n => (0 < num_q n)%Q) (items_of args) ->
   fn_HARMEAN args = AOk (NF (qlen (items_of args) / qsum (map Qinv (qs (items_of args))))%Q).
 Proof. exact HARMEAN_definition. Qed.
+Theorem C11_AVEDEV_definition : forall args, numeric_args args -> items_of args <> [] ->
+  fn_AVEDEV args = AOk (NF (qsum (map (fun x => qabs_q (x - mean_q (items_of args))) (qs (items_of args))) / qlen (items_of args))%Q).
+Proof. exact AVEDEV_definition. Qed.
+Theorem C11_AVEDEV_order_free : forall ns ns', Permutation ns ns' -> (avedev_q ns == avedev_q ns')%Q.
+Proof. exact avedev_order_free. Qed.
+Theorem C11_AVEDEV_nonnegative : forall ns, ns <> [] -> (0 <= avedev_q ns)%Q.
+Proof. exact avedev_nonneg. Qed.
 Theorem C11_SLOPE_definition : forall ys xs, length ys = length xs -> ys <> [] ->
   let n := qlen ys in let sx := qsum (qs xs) in let sy := qsum (qs ys) in
   let sxx := qsum (map (fun x => (x * x)%Q) (qs xs)) in let sxy := qsum (map (fun p => (fst p * snd p)%Q) (combine (qs xs) (qs ys))) in
@@ -132,6 +139,8 @@ Proof. exact SLOPE_definition. Qed.
 
 Print Assumptions C11_regroup_invariant.
 Print Assumptions C11_SUM.
+Print Assumptions C11_AVEDEV_definition.
+Print Assumptions C11_AVEDEV_order_free.
 Print Assumptions C11_AVERAGE.
 Print Assumptions C11_VAR.
 Print Assumptions C11_MIN_MAX.
